@@ -371,3 +371,44 @@ func RunBytes(b []byte, feed map[string]*ref.T, outputs []string) Outcome {
 	}
 	return o
 }
+
+// Session is one loaded model that is run several times (histories).
+type Session struct {
+	M   *gonnx.Model
+	Err error
+}
+
+// NewSession loads model bytes once.
+func NewSession(b []byte) *Session {
+	s := &Session{}
+	o := Capture(nil, func() ([]tensor.Tensor, error) {
+		var err error
+		s.M, err = gonnx.NewModelFromBytes(b)
+		return nil, err
+	})
+	if o.Kind == Panic {
+		s.Err = fmt.Errorf("panic: %s", o.Panic)
+	} else {
+		s.Err = o.Err
+	}
+	return s
+}
+
+// Run runs the session's model once with fresh tensors built from feed.
+func (s *Session) Run(feed map[string]*ref.T, outputs []string) Outcome {
+	return Capture(nil, func() ([]tensor.Tensor, error) {
+		in := gonnx.Tensors{}
+		for k, v := range feed {
+			in[k] = ToTensor(v)
+		}
+		res, err := s.M.Run(in)
+		if err != nil {
+			return nil, err
+		}
+		out := make([]tensor.Tensor, len(outputs))
+		for i, name := range outputs {
+			out[i] = res[name]
+		}
+		return out, nil
+	})
+}
